@@ -77,8 +77,15 @@ def make_workload(rng, n_threads, max_tests, runlevel=True):
                 ops.append(["tags", rng.sample(["g%d" % t, "h"], rng.randint(1, 2)), []])
             test = {"id": "w%d.t%d" % (t, j), "t0": uid * 10, "t1": uid * 10 + 1,
                     "outcome": rng.choice(OUTCOMES)}
-            if rng.random() < 0.5:
+            if j and rng.random() < 0.3:
+                test["t0"] = None   # no time() before startTest: the start time is the previous end time
+            r = rng.random()
+            if r < 0.4:
                 test["tags_in"] = [["l%d" % uid], []]
+            elif r < 0.55:
+                test["tags_in"] = [[], ["h"]]        # the test removes a run-level tag
+            elif r < 0.7:
+                test["tags_in"] = [["g%d" % t], ["l0"]]  # the test sets a tag the run level may have
             if rng.random() < 0.25:
                 test["tags_after"] = [["z%d" % uid], []]
             ops.append(["test", test])
@@ -127,7 +134,8 @@ def worker(fwd, ops, errors):
             elif k == "test":
                 spec = op[1]
                 test = testtools.PlaceHolder(spec["id"])
-                fwd.time(BASE + datetime.timedelta(seconds=spec["t0"]))
+                if spec["t0"] is not None:
+                    fwd.time(BASE + datetime.timedelta(seconds=spec["t0"]))
                 fwd.startTest(test)
                 if "tags_in" in spec:
                     fwd.tags(set(spec["tags_in"][0]), set(spec["tags_in"][1]))
@@ -320,9 +328,12 @@ def check_log(ctx, workload, sch, log, sem, errors, exc, threads, fault, detail)
                   lambda: {"thread": t, "got": [(b["test"], o) for b, o in zip(mine, outs)],
                            "want": [(s["id"], s["outcome"]) for s in want], **detail()})
         tags = model_tags(ops)
+        prev_end = None
         for b, s in zip(mine, want):
             times = [x.payload["time"] for x in b["events"] if x.name == "time"]
-            ctx.check(times[:2] == [BASE + datetime.timedelta(seconds=s["t0"]),
+            t_start = s["t0"] if s["t0"] is not None else prev_end
+            prev_end = s["t1"]
+            ctx.check(times[:2] == [BASE + datetime.timedelta(seconds=t_start),
                                     BASE + datetime.timedelta(seconds=s["t1"])],
                       "block.own-start-time", lambda: {"test": s["id"], "times": [repr(x) for x in times], **detail()})
             out = [x for x in b["events"] if x.name in recorders.OUTCOMES]
